@@ -8,6 +8,7 @@ From LV Require Import Base.Bytes Base.Sx Model.Obj Model.Writer Model.Parser Mo
   Model.ObjStm Proofs.LexProofs Proofs.XrefProofs Proofs.XrefTableProofs Proofs.ObjStmProofs
   Spec.RefWriter Proofs.SpellingProofs Proofs.LitStringProofs Proofs.SpellingProofsLit
   Model.Loader Proofs.RealProofs Proofs.ObjectRtProofs.
+From LV Require Model.A85 Model.AsciiHex Spec.AsciiHexSpec Proofs.AsciiHexProofs.
 Local Open Scope N_scope.
 
 (* (1) Cross-reference streams.  For ALL field widths (0 = field absent, any positive width, not all three
@@ -84,6 +85,48 @@ Theorem C02_objstm_expand :
     objstm_plain d (snd (os_payload items hdr_end)) =
     OsOk (fold_left (fun m it => insert m (oi_num it, 0) (denote it)) items []).
 Proof. exact objstm_expand. Qed.
+
+
+(* (4) ASCIIHexDecode on structural streams (the repair of C02-asciihex, /repo 695e965).  Stream::decode_asciihex
+   (Model/AsciiHex.v) returns the data for EVERY legal encoding of it (Spec/AsciiHexSpec.v, written from 7.4.2):
+   two digits per byte, each digit in either case, white-space before any digit and before the EOD marker,
+   anything after the marker; an odd number of digits is completed by 0; any other character is an error. *)
+Theorem C02_asciihex_roundtrip :
+  forall (upper : bool) (data rest : bytes),
+    AsciiHex.decode (AsciiHexSpec.encode upper data ++ AsciiHexSpec.EOD ++ rest) = A85.Ok data.
+Proof. exact AsciiHexProofs.ahx_roundtrip. Qed.
+
+Theorem C02_asciihex_any_spelling :
+  forall (data : bytes) (st : list AsciiHexSpec.dstyle) (tail_ws rest : bytes),
+    Forall AsciiHexSpec.dstyle_ok st -> AsciiHexSpec.all_white tail_ws ->
+    AsciiHex.decode (AsciiHexSpec.encode_styled data st ++ tail_ws ++ AsciiHexSpec.EOD ++ rest) = A85.Ok data.
+Proof. exact AsciiHexProofs.ahx_roundtrip_styled. Qed.
+
+Theorem C02_asciihex_odd_final_digit :
+  forall (upper u : bool) (data : bytes) (d : N) (tail_ws rest : bytes),
+    d < 16 -> AsciiHexSpec.all_white tail_ws ->
+    AsciiHex.decode (AsciiHexSpec.encode upper data ++ AsciiHexSpec.digit_char u d :: tail_ws ++ AsciiHexSpec.EOD ++ rest)
+    = A85.Ok (data ++ [byte_of_N (d * 16)]).
+Proof. exact AsciiHexProofs.ahx_odd_final_digit. Qed.
+
+Theorem C02_asciihex_illegal_character :
+  forall (upper : bool) (data : bytes) (c : byte) (rest : bytes),
+    AsciiHex.hex_digit c = None -> c <> x3e -> ~ In c AsciiHexSpec.white ->
+    AsciiHex.decode (AsciiHexSpec.encode upper data ++ c :: rest) = A85.Err A85.EIoData.
+Proof. exact AsciiHexProofs.ahx_illegal_character. Qed.
+
+(* the encoder the reference writer applies to object streams and cross-reference streams *)
+Theorem C02_asciihex_refwriter :
+  forall (data : bytes) (upper : bool) (ws all : list N) (rest : bytes),
+    AsciiHex.decode (ahx_encode upper ws all data ++ rest) = A85.Ok data.
+Proof. exact AsciiHexProofs.ahx_refwriter_roundtrip. Qed.
+
+Theorem C02_example_asciihex :
+  (AsciiHexSpec.encode false [x4a; xb0; xff] ++ AsciiHexSpec.EOD = bs "4ab0ff>") /\
+  (AsciiHex.decode (bs "4A b" ++ [x00; x0a] ++ bs "0Ff >junk") = A85.Ok [x4a; xb0; xff]) /\
+  (AsciiHex.decode (bs "4ab>") = A85.Ok [x4a; xb0]) /\
+  (AsciiHex.decode (bs "4ag0>") = A85.Err A85.EIoData).
+Proof. repeat split; vm_compute; reflexivity. Qed.
 
 
 (* ---------------------------------------------------------------------------------------------
@@ -211,7 +254,7 @@ Definition structural_nums (st : fstyle) : list N :=
 
 Definition C02_full : Prop :=
   forall (st : fstyle) (a : adoc) (file : bytes),
-    adoc_wf a -> Known_raw_eol st a = false -> Known_deep_parens a = false -> Known_asciihex st = false ->
+    adoc_wf a -> Known_raw_eol st a = false -> Known_deep_parens a = false ->
     ref_write st a = Some file ->
     exists d t,
       load file = LOk d t /\
@@ -294,6 +337,12 @@ Print Assumptions C02_table_lookup.
 Print Assumptions C02_table_lookup_none.
 Print Assumptions C02_xref_table_any_sectioning.
 Print Assumptions C02_objstm_expand.
+Print Assumptions C02_asciihex_roundtrip.
+Print Assumptions C02_asciihex_any_spelling.
+Print Assumptions C02_asciihex_odd_final_digit.
+Print Assumptions C02_asciihex_illegal_character.
+Print Assumptions C02_asciihex_refwriter.
+Print Assumptions C02_example_asciihex.
 Print Assumptions C02_filler_any.
 Print Assumptions C02_name_any_spelling.
 Print Assumptions C02_hex_string_any_spelling.
